@@ -9,7 +9,7 @@ Definition entries : list (Z * (list Z -> list Z)) :=
     (3, entry_connect); (4, entry_publish); (5, entry_publish_header); (6, entry_ack); (7, entry_ping);
     (8, entry_disconnect); (9, entry_subscribe); (10, entry_unsubscribe);
     (11, entry_spec_decode); (12, entry_spec_decode_padded); (13, entry_stream_decode); (14, entry_utf8_ok);
-    (15, entry_clean); (16, entry_clean_flag);
+    (15, entry_clean); (16, entry_clean_flag); (17, entry_rl_pack);
     (20, entry_emit_connect); (21, entry_emit_publish); (22, entry_emit_subscribe);
     (23, entry_emit_unsubscribe); (24, entry_emit_disconnect) ].
 
